@@ -41,7 +41,7 @@ Proof.
   exists a. split; [exact Ha|]. split; [exact (definedb_sound l_meta a Hd)|exact Hs].
 Qed.
 Lemma b1_classes_ok : forallb (fun p => class_ok2 (fst p) (snd p)) b1_classes = true.
-Proof. vm_compute. reflexivity. Qed.
+Proof. vm_cast_no_check (eq_refl true). Qed.
 
 (* for EVERY natural number c (not only c <= 0x10FFFF) and every string/offset: the rule matches exactly one
    character, and exactly the characters B.1 lists *)
@@ -126,7 +126,7 @@ Definition crlf_def_ok : bool :=
   | Some a, Some cr, Some lf => crlf_shape G_meta a cr lf
   | _, _, _ => false
   end.
-Lemma crlf_def : crlf_def_ok = true. Proof. vm_compute. reflexivity. Qed.
+Lemma crlf_def : crlf_def_ok = true. Proof. vm_cast_no_check (eq_refl true). Qed.
 
 Lemma c06_crlf : exists a, rid_of (r_boot tt) 0%N "CRLF" = Some a /\
   forall s i j, M G_meta s (ERef a) i j <->
